@@ -336,11 +336,22 @@ class World:
             except Exception:
                 pass
 
+    decoys = []
+    decoy_rng = random.Random(4711)
+
     def fresh_node(self, kind):
         if kind == "w":
             return self.node
         nm = self.g.make_nodemaker()
         cap = self.node.get_uri() if kind == "rw" else self.node.get_readonly_uri()
+        if self.decoy_rng.random() < 0.3:
+            # on the same client somebody opened (and still holds) a cap that a read-cap holder can make up: same read key,
+            # the fingerprint of another key.  It names the same slot; the genuine cap must not be affected by it
+            from allmydata import uri as uri_mod
+            from allmydata.util import hashutil
+            u = uri_mod.from_string(self.node.get_readonly_uri())
+            forged = u.__class__(u.readkey, hashutil.ssk_pubkey_fingerprint_hash(b"a key the attacker made up"))
+            self.decoys.append(nm.create_from_cap(forged.to_string()))
         return nm.create_from_cap(cap)
 
     # ---- creation and publishing
